@@ -11,6 +11,12 @@ Case format (tree):  [kind, [persistent, pairs, unloaded], ops]
          side B  [10,y,x] y.attr = x|None  [11,y] del y.attr                   (kinds 0, 1)
                  [12,y,x] append  [13,y,x] remove  [14,y,xs] y.attr = xs       (kind 2)
          [15]    session.flush(); expire_all(); read both sides back   (last operation)
+         [16]    session.flush(); commit(); load every collection side, refresh the columns of the
+                 side-B objects (their scalar attribute stays unloaded but resolvable)   (not terminal)
+         [17,x]  del x.attr (collection side A)    [18,y]  del y.attr (collection side B, kind 2)
+  kinds 3 / 4: one-to-many with a set / a dict keyed by id (oracle only, no Coq model): ops 0, 1, 7,
+         10, 11, 15, 16, 17
+  persistent 2: like 1 but the scalar side-B attributes are left unloaded (columns loaded)
 Observation: per operation [rc, side A cells, side B cells]; for [15]: [status, pairs seen from side A,
 pairs seen from side B, rows left by the flush]  (see coq/orm/BackrefRun.v).
 """
@@ -74,7 +80,7 @@ ANCHORS = [
     ("lib/sqlalchemy/util/_collections.py", "has_dupes"),
 ]
 
-APP, REM, INS, POP, DELI, SETI, SLICE, REPL, ASET, ADEL, BSET, BDEL, BAPP, BREM, BREPL, RELOAD = range(16)
+APP, REM, INS, POP, DELI, SETI, SLICE, REPL, ASET, ADEL, BSET, BDEL, BAPP, BREM, BREPL, RELOAD, COMMIT, DELC, BDELC = range(19)
 OBJS = (1, 2, 3)
 
 
@@ -90,11 +96,11 @@ def translate(repo, outdir):
 def _alphabet(kind, objs=(1, 2)):
     ops = []
     if kind in (0, 2):
-        lists = [[], [1], [2], [1, 2], [2, 1]]
+        lists = [[], [1], [2], [1, 2], [2, 1], [1, 1], [2, 2]]
         for x in objs:
             for y in objs:
                 ops += [[APP, x, y], [REM, x, y], [INS, x, 0, y], [SETI, x, 0, y], [SLICE, x, 0, 1, [y]]]
-            ops += [[POP, x, 0], [DELI, x, 0], [SLICE, x, 0, 2, []]]
+            ops += [[POP, x, 0], [DELI, x, 0], [SLICE, x, 0, 2, []], [DELC, x]]
             ops += [[REPL, x, l] for l in lists]
     if kind == 1:
         for x in objs:
@@ -106,7 +112,8 @@ def _alphabet(kind, objs=(1, 2)):
         for y in objs:
             for x in objs:
                 ops += [[BAPP, y, x], [BREM, y, x]]
-            ops += [[BREPL, y, l] for l in ([], [1], [1, 2])]
+            ops += [[BREPL, y, l] for l in ([], [1], [1, 2])] + [[BDELC, y]]
+    ops.append([COMMIT])
     return ops
 
 
@@ -123,6 +130,19 @@ _CORE = [
     # the unloaded-side exception
     (0, [1, [[1, 1], [1, 2]], [1]], [[APP, 2, 1], [BSET, 2, 3], [BDEL, 1], [RELOAD]]),
     (1, [1, [[1, 1]], [1]], [[ASET, 2, 1], [BSET, 1, 3], [RELOAD]]),
+    # del obj.collection with 0..4 members (one duplicated), both relationship kinds, then the other side
+    (0, [1, [[1, 1], [1, 2], [1, 3]], []], [[DELC, 1], [DELC, 1], [APP, 1, 2], [RELOAD]]),
+    (0, [0, [[1, 1], [1, 2], [1, 3]], []], [[APP, 1, 1], [DELC, 1], [DELC, 2]]),
+    (0, [2, [[1, 1], [1, 2], [2, 3]], []], [[DELC, 1], [BSET, 3, 1], [COMMIT], [DELC, 1], [RELOAD]]),
+    (2, [1, [[1, 1], [1, 2], [1, 3], [2, 1]], []], [[DELC, 1], [BDELC, 1], [APP, 1, 3], [RELOAD]]),
+    (2, [0, [[1, 1], [2, 1], [3, 1]], []], [[BDELC, 1], [BDELC, 2], [COMMIT], [BAPP, 1, 2], [DELC, 2]]),
+    # bulk replacement that repeats a member and drops another one
+    (0, [1, [[1, 1], [1, 2]], []], [[REPL, 1, [1, 1]]]),
+    (2, [0, [[1, 1], [1, 2]], []], [[REPL, 1, [2, 2]], [RELOAD]]),
+    # commit / expire before del and set-None on the scalar side (parent collection loaded)
+    (0, [2, [[1, 1], [1, 2]], []], [[BDEL, 1], [BSET, 2, 0], [RELOAD]]),
+    (0, [0, [], []], [[APP, 1, 1], [APP, 1, 2], [COMMIT], [BDEL, 1], [BSET, 2, 0], [COMMIT], [BSET, 1, 2], [BDEL, 1], [RELOAD]]),
+    (1, [2, [[1, 1], [2, 2]], []], [[BDEL, 1], [BSET, 2, 0], [COMMIT], [ASET, 1, 1], [COMMIT], [BDEL, 1], [RELOAD]]),
     # guarded region: every primitive on both sides
     (0, [0, [], []], [[APP, 1, 1], [APP, 1, 2], [BSET, 1, 2], [REPL, 1, [3, 1]], [INS, 2, 0, 2], [POP, 1, 0],
                       [SETI, 1, 0, 3], [BDEL, 2], [REM, 2, 2], [RELOAD]]),
@@ -137,7 +157,7 @@ _CORE = [
 
 def _rand_case(rng):
     kind = rng.randint(0, 2)
-    persistent = rng.randint(0, 1)
+    persistent = rng.choice([0, 1, 1, 2])
     rel = []
     if rng.random() < 0.6:
         if kind == 2:
@@ -151,17 +171,17 @@ def _rand_case(rng):
             rel = [[x, y] for x, y in list(zip(xs, ys))[: rng.randint(0, 3)]]
     rel = sorted(rel)
     unl = []
-    if persistent and kind != 2 and rng.random() < 0.25:
+    if persistent == 1 and kind != 2 and rng.random() < 0.25:
         unl = [rng.randint(1, 3)]
     ops = []
     for _ in range(rng.randint(1, 7)):
         o, v = rng.randint(1, 3), rng.randint(1, 3)
         if kind == 0:
-            code = rng.choice([APP, APP, REM, INS, POP, DELI, SETI, SLICE, REPL, BSET, BSET, BSET, BDEL])
+            code = rng.choice([APP, APP, REM, INS, POP, DELI, SETI, SLICE, REPL, BSET, BSET, BSET, BDEL, BDEL, DELC, COMMIT])
         elif kind == 1:
-            code = rng.choice([ASET, ASET, ADEL, BSET, BSET, BDEL])
+            code = rng.choice([ASET, ASET, ADEL, BSET, BSET, BDEL, COMMIT])
         else:
-            code = rng.choice([APP, APP, REM, INS, POP, DELI, SETI, SLICE, REPL, BAPP, BAPP, BREM, BREPL])
+            code = rng.choice([APP, APP, REM, INS, POP, DELI, SETI, SLICE, REPL, BAPP, BAPP, BREM, BREPL, DELC, BDELC, COMMIT])
         if code in (APP, REM, BAPP, BREM):
             op = [code, o, v]
         elif code == INS:
@@ -180,6 +200,8 @@ def _rand_case(rng):
             op = [code, o, vs]
         elif code in (ASET, BSET):
             op = [code, o, rng.randint(0, 3)]
+        elif code == COMMIT:
+            op = [COMMIT]
         else:
             op = [code, o]
         ops.append(op)
@@ -188,12 +210,40 @@ def _rand_case(rng):
     return {"in": [kind, [persistent, rel, unl], ops], "kind": "random"}
 
 
+def _rand_setdict_case(rng):
+    """one-to-many with a set / keyed-dict collection: checked by the oracle only"""
+    kind = rng.choice([3, 4])
+    persistent = rng.choice([0, 1, 2])
+    rel = sorted([rng.randint(1, 3), y] for y in OBJS if rng.random() < 0.7)
+    ops = []
+    for _ in range(rng.randint(1, 6)):
+        o, v = rng.randint(1, 3), rng.randint(1, 3)
+        code = rng.choice([APP, REM, REPL, BSET, BSET, BDEL, DELC, DELC, COMMIT])
+        if code in (APP, REM):
+            op = [code, o, v]
+        elif code == REPL:
+            op = [code, o, sorted(set(rng.randint(1, 3) for _ in range(rng.randint(0, 3))))]
+        elif code == BSET:
+            op = [code, o, rng.randint(0, 3)]
+        elif code == COMMIT:
+            op = [COMMIT]
+        else:
+            op = [code, o]
+        ops.append(op)
+    if rng.random() < 0.7:
+        ops.append([RELOAD])
+    return {"in": [kind, [persistent, rel, []], ops], "kind": "random-setdict", "model": False}
+
+
 def _families():
     for kind in (0, 1, 2):
         alpha = _alphabet(kind)
         inits = [[0, [], []], [1, [[1, 1]], []]]
         if kind == 0:
             inits.append([1, [[1, 1], [1, 2]], []])
+            inits.append([2, [[1, 1], [1, 2]], []])
+        if kind == 2:
+            inits.append([1, [[1, 1], [1, 2], [2, 1]], []])
         for init in inits:
             for a, b in itertools.product(alpha, repeat=2):
                 yield {"in": [kind, copy.deepcopy(init), [list(a), list(b), [RELOAD]]], "kind": "pairs-%d" % kind}
@@ -207,6 +257,13 @@ def gen_cases(rng, tier):
     cases += fam
     for _ in range(10000 if tier == "thorough" else 800):
         cases.append(_rand_case(rng))
+    for n in (0, 1, 2, 3):  # del obj.collection on set / dict collections with 0..3 members
+        for kind in (3, 4):
+            for pers in (0, 1):
+                rel = [[1, y] for y in OBJS[:n]]
+                cases.append({"in": [kind, [pers, rel, []], [[DELC, 1], [RELOAD]]], "kind": "delc-setdict", "model": False})
+    for _ in range(3000 if tier == "thorough" else 250):
+        cases.append(_rand_setdict_case(rng))
     seen, out = set(), []
     for c in cases:
         k = json.dumps(c["in"])
@@ -219,22 +276,22 @@ def gen_cases(rng, tier):
 def nontrivial(c):
     _kind, _init, ops = c["in"]
     codes = {o[0] for o in ops}
-    a_side = codes & {APP, REM, INS, POP, DELI, SETI, SLICE, REPL, ASET, ADEL}
-    b_side = codes & {BSET, BDEL, BAPP, BREM, BREPL}
-    return bool((a_side and b_side) or codes & {REPL, SLICE, BREPL})
+    a_side = codes & {APP, REM, INS, POP, DELI, SETI, SLICE, REPL, ASET, ADEL, DELC}
+    b_side = codes & {BSET, BDEL, BAPP, BREM, BREPL, BDELC}
+    return bool((a_side and b_side) or codes & {REPL, SLICE, BREPL, DELC, BDELC})
 
 
 # --------------------------------------------------------------------------------------------
 # implementation side
 _ENV = {}
-_EXC = {"AttributeError": 1, "ValueError": 3, "IndexError": 5}
+_EXC = {"AttributeError": 1, "ValueError": 3, "IndexError": 5, "KeyError": 2}
 
 
 def impl_setup():
     if _ENV:
         return
     from sqlalchemy import Column, ForeignKey, Integer, Table, create_engine
-    from sqlalchemy.orm import configure_mappers, declarative_base, relationship
+    from sqlalchemy.orm import attribute_keyed_dict, configure_mappers, declarative_base, relationship
     from sqlalchemy.pool import StaticPool
 
     Base = declarative_base()
@@ -278,17 +335,48 @@ def impl_setup():
         id = Column(Integer, primary_key=True)
         ls = relationship("L", secondary=assoc, back_populates="rs", order_by="L.id")
 
+    class PS(Base):
+        __tablename__ = "ps"
+        id = Column(Integer, primary_key=True)
+        cs = relationship("CS", back_populates="p", collection_class=set)
+
+    class CS(Base):
+        __tablename__ = "cs"
+        id = Column(Integer, primary_key=True)
+        pid = Column(ForeignKey("ps.id"))
+        p = relationship("PS", back_populates="cs")
+
+    class PD(Base):
+        __tablename__ = "pd"
+        id = Column(Integer, primary_key=True)
+        cs = relationship("CD", back_populates="p", collection_class=attribute_keyed_dict("id"))
+
+    class CD(Base):
+        __tablename__ = "cd"
+        id = Column(Integer, primary_key=True)
+        pid = Column(ForeignKey("pd.id"))
+        p = relationship("PD", back_populates="cs")
+
     configure_mappers()
     e = create_engine("sqlite://", poolclass=StaticPool, connect_args={"autocommit": False})
     Base.metadata.create_all(e)
     _ENV.update(
         e=e,
-        kinds={0: (P, "cs", C, "p", True, False), 1: (Q, "one", O, "q", False, False), 2: (L, "rs", R, "ls", True, True)},
-        tables={0: ["c", "p"], 1: ["o", "q"], 2: ["assoc", "l", "r"]},
+        # X class, X attribute, Y class, Y attribute, X side is a collection, Y side is a collection, fk of Y
+        kinds={
+            0: (P, "cs", C, "p", True, False, "pid"),
+            1: (Q, "one", O, "q", False, False, "qid"),
+            2: (L, "rs", R, "ls", True, True, None),
+            3: (PS, "cs", CS, "p", True, False, "pid"),
+            4: (PD, "cs", CD, "p", True, False, "pid"),
+        },
+        tables={0: ["c", "p"], 1: ["o", "q"], 2: ["assoc", "l", "r"], 3: ["cs", "ps"], 4: ["cd", "pd"]},
         rows={
             0: "select pid, id from c where pid is not null order by id",
             1: "select qid, id from o where qid is not null order by id",
             2: "select l, r from assoc order by l, r",
+            3: "select pid, id from cs where pid is not null order by id",
+            4: "select pid, id from cd where pid is not null order by id",
         },
     )
 
@@ -302,7 +390,7 @@ def impl(case):
     impl_setup()
     kind, init, ops = case["in"]
     persistent, rel, unl = init
-    X, xa, Y, ya, xcoll, ycoll = _ENV["kinds"][kind]
+    X, xa, Y, ya, xcoll, ycoll, yfk = _ENV["kinds"][kind]
     e = _ENV["e"]
     warnings.simplefilter("ignore")
     with e.connect() as conn:
@@ -314,65 +402,103 @@ def impl(case):
         xs = {i: X(id=i) for i in OBJS}
         ys = {i: Y(id=i) for i in OBJS}
         everything = list(xs.values()) + list(ys.values())
+        xid = {id(o): i for i, o in xs.items()}
+        yid = {id(o): i for i, o in ys.items()}
+        state = {"persistent": bool(persistent)}
+
+        def members(c, ids):
+            vals = list(c.values()) if isinstance(c, dict) else list(c)
+            l = [ids[id(v)] for v in vals]
+            return sorted(l) if kind in (3, 4) else l
+
+        def add(x, y):
+            c = getattr(xs[x], xa)
+            if kind == 3:
+                c.add(ys[y])
+            elif kind == 4:
+                c[y] = ys[y]
+            else:
+                c.append(ys[y])
+
+        def load_sides(lazy_b):
+            for o in xs.values():
+                getattr(o, xa)
+            for o in ys.values():
+                o.id  # refresh the columns (the foreign key); the relationship stays unloaded
+                if ycoll or not lazy_b:
+                    getattr(o, ya)
+
         if persistent:
             s.add_all(everything)
         for x, y in rel:
             if xcoll:
-                getattr(xs[x], xa).append(ys[y])
+                add(x, y)
             else:
                 setattr(xs[x], xa, ys[y])
         if persistent:
             s.commit()
-            for o in xs.values():
-                getattr(o, xa)
-            for o in ys.values():
-                getattr(o, ya)
+            load_sides(lazy_b=(persistent == 2))
             for y in unl:
                 s.expire(ys[y])
-        xid = {id(o): i for i, o in xs.items()}
-        yid = {id(o): i for i, o in ys.items()}
 
-        def cellv(o, attr, coll, ids):
+        def cellv(o, attr, coll, ids, fk):
             d = o.__dict__
             if coll:
-                return [ids[id(v)] for v in d.get(attr, [])]
+                return members(d.get(attr, []), ids)
             if attr not in d:
-                return [-1] if (persistent and attr not in inspect(o).committed_state) else [-2]
+                if state["persistent"] and attr not in inspect(o).committed_state:
+                    if fk is not None and fk in d:
+                        return [d[fk] or 0]  # unloaded, resolvable from the identity map without SQL
+                    return [-1]
+                return [-2]
             v = d[attr]
             return [0 if v is None else ids[id(v)]]
 
         def snapshot():
-            return [[cellv(xs[i], xa, xcoll, yid) for i in OBJS], [cellv(ys[i], ya, ycoll, xid) for i in OBJS]]
+            return [[cellv(xs[i], xa, xcoll, yid, None) for i in OBJS], [cellv(ys[i], ya, ycoll, xid, yfk) for i in OBJS]]
 
         for op in ops:
             code = op[0]
-            if code == RELOAD:
-                if not persistent:
+            if code in (RELOAD, COMMIT):
+                if not state["persistent"]:
                     s.add_all(everything)
                 try:
                     s.flush()
                     rows = [list(r) for r in s.execute(text(_ENV["rows"][kind])).all()]
-                    s.expire_all()
-                    relo, relb = [], []
-                    for i in OBJS:
-                        v = getattr(xs[i], xa)
-                        relo += [[i, yid[id(w)]] for w in (list(v) if xcoll else ([] if v is None else [v]))]
-                    for j in OBJS:
-                        v = getattr(ys[j], ya)
-                        relb += [[xid[id(w)], j] for w in (list(v) if ycoll else ([] if v is None else [v]))]
-                    out.append([0, sorted(relo), sorted(relb), rows])
                 except Exception:  # the flush failed (IntegrityError on duplicate association rows, ...)
                     s.rollback()
                     out.append([9, [], [], []])
+                    break
+                if code == COMMIT:
+                    s.commit()
+                    state["persistent"] = True
+                    load_sides(lazy_b=True)
+                    out.append([0] + snapshot() + [rows])
+                    continue
+                s.expire_all()
+                relo, relb = [], []
+                for i in OBJS:
+                    v = getattr(xs[i], xa)
+                    relo += [[i, w] for w in (members(v, yid) if xcoll else ([] if v is None else [yid[id(v)]]))]
+                for j in OBJS:
+                    v = getattr(ys[j], ya)
+                    relb += [[w, j] for w in (members(v, xid) if ycoll else ([] if v is None else [xid[id(v)]]))]
+                out.append([0, sorted(relo), sorted(relb), rows])
                 break
             rc = 0
             try:
-                if code in (APP, BAPP):
-                    o, v = (xs[op[1]], ys[op[2]]) if code == APP else (ys[op[1]], xs[op[2]])
-                    getattr(o, xa if code == APP else ya).append(v)
-                elif code in (REM, BREM):
-                    o, v = (xs[op[1]], ys[op[2]]) if code == REM else (ys[op[1]], xs[op[2]])
-                    getattr(o, xa if code == REM else ya).remove(v)
+                if code == APP:
+                    add(op[1], op[2])
+                elif code == BAPP:
+                    getattr(ys[op[1]], ya).append(xs[op[2]])
+                elif code == REM:
+                    c = getattr(xs[op[1]], xa)
+                    if kind == 4:
+                        del c[op[2]]
+                    else:
+                        c.remove(ys[op[2]])
+                elif code == BREM:
+                    getattr(ys[op[1]], ya).remove(xs[op[2]])
                 elif code == INS:
                     getattr(xs[op[1]], xa).insert(op[2], ys[op[3]])
                 elif code == POP:
@@ -384,22 +510,23 @@ def impl(case):
                 elif code == SLICE:
                     getattr(xs[op[1]], xa)[op[2] : op[3]] = [ys[i] for i in op[4]]
                 elif code == REPL:
-                    setattr(xs[op[1]], xa, [ys[i] for i in op[2]])
+                    vals = [ys[i] for i in op[2]]
+                    setattr(xs[op[1]], xa, set(vals) if kind == 3 else ({v.id: v for v in vals} if kind == 4 else vals))
                 elif code == BREPL:
                     setattr(ys[op[1]], ya, [xs[i] for i in op[2]])
                 elif code == ASET:
                     setattr(xs[op[1]], xa, None if op[2] == 0 else ys[op[2]])
-                elif code == ADEL:
+                elif code in (ADEL, DELC):
                     delattr(xs[op[1]], xa)
                 elif code == BSET:
                     setattr(ys[op[1]], ya, None if op[2] == 0 else xs[op[2]])
-                elif code == BDEL:
+                elif code in (BDEL, BDELC):
                     delattr(ys[op[1]], ya)
                 else:
                     raise NotImplementedError(code)
-            except (AttributeError, ValueError, IndexError) as ex:
-                rc = _EXC[type(ex).__name__]
-            except Exception:  # anything else (RecursionError, ...) is an internal failure of the mutation
+            except (AttributeError, ValueError, IndexError, KeyError) as ex:
+                rc = _EXC.get(type(ex).__name__, 3)
+            except Exception:  # anything else (RecursionError, RuntimeError, ...) is an internal failure
                 rc = 99
             out.append([rc] + snapshot())
         s.rollback()
@@ -407,22 +534,26 @@ def impl(case):
 
 
 def model_pair(case, obs):
-    """The flush is environment: what it left in the database is input of the model's reload step."""
+    """The flush is environment: what it left in the database is input of the model's reload/commit
+    steps.  persistent = 2 (scalar side unloaded but resolvable) is the same model state as 1."""
     mi = copy.deepcopy(case["in"])
-    mo = obs
-    ops = mi[2]
-    if ops and ops[-1][0] == RELOAD and len(obs) == len(ops) and len(obs[-1]) == 4:
-        ops[-1] = [RELOAD, obs[-1][0], obs[-1][3]]
-        mo = obs[:-1] + [obs[-1][:3]]
+    mi[1][0] = 1 if mi[1][0] else 0
+    mo = []
+    for k, (op, o) in enumerate(zip(mi[2], obs)):
+        if op[0] in (RELOAD, COMMIT):
+            mi[2][k] = [op[0], o[0], o[-1]]
+            mo.append(o[:-1])
+        else:
+            mo.append(o)
     return mi, mo
 
 
 # --------------------------------------------------------------------------------------------
 # oracle: the agreement itself, on the implementation's in-memory state after every operation and on
 # the reloaded state.  Pairs whose scalar side was expired at the start (the documented unloaded-side
-# exception) are exempt in memory, not after the reload.
+# exception) are exempt in memory until the next commit, not after a reload.
 def _members(kind, side, cell):
-    coll = (kind in (0, 2)) if side == 0 else (kind == 2)
+    coll = (kind in (0, 2, 3, 4)) if side == 0 else (kind == 2)
     if coll:
         return list(cell)
     return [cell[0]] if cell[0] > 0 else []
@@ -455,37 +586,30 @@ def oracle(case, obs):
     kind, init, ops = case["in"]
     _persistent, rel, unl = init
     # the state before the first operation, for the classification of a disagreement
-    a0 = [[y for (x, y) in rel if x == i] if kind in (0, 2) else ([y for (x, y) in rel if x == i] or [0])[:1] for i in OBJS]
+    acoll = kind in (0, 2, 3, 4)
+    a0 = [[y for (x, y) in rel if x == i] if acoll else ([y for (x, y) in rel if x == i] or [0])[:1] for i in OBJS]
     b0 = [[x for (x, y) in rel if y == j] if kind == 2 else ([x for (x, y) in rel if y == j] or [0])[:1] for j in OBJS]
     prev = (a0, b0)
-    dup = False
     one2one = False
+    skip = list(unl) if kind != 2 else []
     for n, (op, o) in enumerate(zip(ops, obs)):
         where = "step %d %s" % (n, op)
-        if op[0] == RELOAD:
+        pa, pb = prev
+        # "dup": a list collection ALREADY held a member twice before this operation - the region the
+        # guarded theorems exclude.  (Putting a member in twice does not by itself break the agreement.)
+        dup = _has_dup(kind, pa, pb)
+        if op[0] in (RELOAD, COMMIT):
             tag = "[dup] " if dup else ("[one-to-one] " if one2one else "")
             if o[0] != 0:
                 return "%s%s: the flush failed" % (tag, where)
-            if o[1] != o[2]:
-                return "%s%s: after flush and reload side A sees %s, side B sees %s" % (tag, where, o[1], o[2])
-            return None
+            if op[0] == RELOAD:
+                if o[1] != o[2]:
+                    return "%s%s: after flush and reload side A sees %s, side B sees %s" % (tag, where, o[1], o[2])
+                return None
+            skip = []
         if o[0] == 99:
             return "%s: the mutation failed with an internal error" % where
         a, b = o[1], o[2]
-        # classification of the operation, from the state before it
-        pa, pb = prev
-        # "dup": the USER puts a member into a collection that already holds it (or the collection
-        # already held a duplicate put there by the user) - exactly the complement of the proved guard
-        if op[0] in (APP, INS) and op[-1] in pa[op[1] - 1]:
-            dup = True
-        if op[0] == SETI and op[3] in pa[op[1] - 1] and not (op[2] < len(pa[op[1] - 1]) and pa[op[1] - 1][op[2]] == op[3]):
-            dup = True
-        if op[0] == BAPP and op[2] in pb[op[1] - 1]:
-            dup = True
-        if op[0] == SLICE and (set(op[4]) & set(pa[op[1] - 1]) or len(set(op[4])) != len(op[4])):
-            dup = True
-        if op[0] in (REPL, BREPL) and len(set(op[2])) != len(op[2]):
-            dup = True
         if kind == 1 and op[0] in (ASET, BSET) and op[2] != 0:
             # the assigned object was already referenced from (or referring to) another object
             back = pb[op[2] - 1] if op[0] == ASET else pa[op[2] - 1]
@@ -494,7 +618,7 @@ def oracle(case, obs):
             others = pa if op[0] == ASET else pb
             if any(c == [op[2]] for i, c in enumerate(others) if i != op[1] - 1):
                 one2one = True
-        d = _disagree(kind, a, b, skip_b=unl if kind != 2 else ())
+        d = _disagree(kind, a, b, skip_b=skip)
         if d:
             tag = "[dup] " if dup else ("[one-to-one] " if one2one else "")
             return "%s%s: side A object %d %s side B object %d, but side B object %d %s it (A=%s B=%s)" % (
